@@ -123,10 +123,16 @@ impl FunctionCompiler<'_> {
     }
 
     /// Returns `None` if any inner comptime blocks haven't been evaluated yet
+    ///
+    /// A `str` stored INSIDE an array is a pointer to its characters: the characters get a data
+    /// object of their own and `relocs` records where (relative to the outermost value, hence
+    /// `base`) its address has to be written.
     fn expr_to_const_data(
         &mut self,
         loc: ConcreteGlobalLoc,
         expr: Idx<hir::Expr>,
+        base: u32,
+        relocs: &mut Vec<(u32, DataId)>,
     ) -> Result<Box<[u8]>, UnfinishedComptimeErr> {
         if let Some(meta_ty) = self.tys[loc.wrap()].meta_ty(expr)
             && *self.tys[loc.wrap()][expr] == Ty::Type
@@ -196,10 +202,21 @@ impl FunctionCompiler<'_> {
                 let item_size = item_ty.size();
                 let item_stride = item_ty.stride();
 
-                let mut array = Vec::<u8>::with_capacity(item_stride as usize * items.len());
+                let mut array = vec![0u8; item_stride as usize * items.len()];
 
                 for (idx, item) in items.into_iter().enumerate() {
-                    let item = self.expr_to_const_data(loc, item)?;
+                    let item_base = base + idx as u32 * item_stride;
+
+                    if *item_ty.absolute_ty() == Ty::String {
+                        // the characters (zero-terminated) live in their own data object
+                        let text = self.expr_to_const_data(loc, item, 0, &mut Vec::new())?;
+                        let name = format!(".str_{}", self.str_id_gen.generate_unique_id());
+                        let text = self.create_global_data(&name, false, text, 1, &[]);
+                        relocs.push((item_base, text));
+                        continue;
+                    }
+
+                    let item = self.expr_to_const_data(loc, item, item_base, relocs)?;
 
                     unsafe {
                         std::ptr::copy_nonoverlapping(
@@ -209,8 +226,6 @@ impl FunctionCompiler<'_> {
                         );
                     }
                 }
-
-                unsafe { array.set_len(array.capacity()) }
 
                 array.into()
             }
@@ -248,7 +263,7 @@ impl FunctionCompiler<'_> {
                     "if the value doesn't exist, `get_const` should've returned non-const, and there should be an error before codegen"
                 );
 
-                return self.expr_to_const_data(loc, local_def.value.unwrap());
+                return self.expr_to_const_data(loc, local_def.value.unwrap(), base, relocs);
             }
             hir::Expr::LocalGlobal(global) => {
                 let fqn = Fqn {
@@ -259,7 +274,12 @@ impl FunctionCompiler<'_> {
                 assert!(!self.world_bodies.has_polymorphic_body(fqn.wrap()));
                 let tfqn = fqn.make_concrete(None);
 
-                return self.expr_to_const_data(tfqn, self.world_bodies.global_body(fqn));
+                return self.expr_to_const_data(
+                    tfqn,
+                    self.world_bodies.global_body(fqn),
+                    base,
+                    relocs,
+                );
             }
             hir::Expr::Member {
                 previous,
@@ -274,7 +294,12 @@ impl FunctionCompiler<'_> {
                     assert!(!self.world_bodies.has_polymorphic_body(fqn.wrap()));
                     let tfqn = fqn.make_concrete(None);
 
-                    return self.expr_to_const_data(tfqn, self.world_bodies.global_body(fqn));
+                    return self.expr_to_const_data(
+                        tfqn,
+                        self.world_bodies.global_body(fqn),
+                        base,
+                        relocs,
+                    );
                 } else {
                     panic!(
                         "constant members should only access files {} #{}",
@@ -337,7 +362,8 @@ impl FunctionCompiler<'_> {
             return Ok(self.compile_builtin_global(builtin_global));
         }
 
-        let bytes = self.expr_to_const_data(loc, value)?;
+        let mut relocs = Vec::new();
+        let bytes = self.expr_to_const_data(loc, value, 0, &mut relocs)?;
 
         // the value might be a narrower number than the annotation of the global (e.g.
         // `x : i64 : comptime { some_i32 }`): the data of the global has the size of the global's
@@ -391,6 +417,7 @@ impl FunctionCompiler<'_> {
             false,
             bytes,
             self.tys.sig(loc.wrap()).align() as u64,
+            &relocs,
         );
 
         self.globals.insert(loc, global);
@@ -404,6 +431,7 @@ impl FunctionCompiler<'_> {
         export: bool,
         data: Box<[u8]>,
         align: u64,
+        relocs: &[(u32, DataId)],
     ) -> DataId {
         // todo: if the data isn't mutable, combine globals with identical definitions
 
@@ -423,6 +451,12 @@ impl FunctionCompiler<'_> {
 
         self.data_description.define(data);
         self.data_description.set_align(align);
+        for (offset, target) in relocs {
+            let target = self
+                .module
+                .declare_data_in_data(*target, self.data_description);
+            self.data_description.write_data_addr(*offset, target, 0);
+        }
         self.module
             .define_data(id, self.data_description)
             .expect("error defining data");
@@ -434,7 +468,7 @@ impl FunctionCompiler<'_> {
     fn create_global_str(&mut self, mut text: String) -> DataId {
         text.push('\0');
         let name = format!(".str_{}", self.str_id_gen.generate_unique_id());
-        self.create_global_data(&name, false, text.into_bytes().into_boxed_slice(), 1)
+        self.create_global_data(&name, false, text.into_bytes().into_boxed_slice(), 1, &[])
     }
 
     fn create_global_i128(&mut self, num: u64) -> DataId {
@@ -445,6 +479,7 @@ impl FunctionCompiler<'_> {
             num.into_bytes(self.module.isa().endianness(), 128)
                 .into_boxed_slice(),
             1,
+            &[],
         )
     }
 
@@ -2425,6 +2460,7 @@ impl FunctionCompiler<'_> {
                                 false,
                                 bytes.clone(),
                                 ty.align() as u64,
+                                &[],
                             );
 
                             let local_id =
